@@ -763,6 +763,70 @@ def check_C18(F, tier, t0):
         'v != w and (c != d or v,w not adjacent in either direction); each writer emits every edge of the selection once, source first, `--` inside `graph` iff -u, `->` inside `digraph` otherwise. Not decided: randomness of the shuffle, CSV parsing, the graph-theoretic reduction itself.',
         TRUSTED, [], './check C18')
 
+def rule_categorize_bit(F, R):
+    """C19: the sets are sets of b-bit integers only if `categorize(e, c)` of usize is a function of exactly bit c of e (seed C19-r11b: a table of
+    masks with one wrong row made two elements share a minterm).  Decided on the shape of the body: `((e >> c) & 1) ==/!= 0|1`, `(e & (1 << c)) ==/!= 0`,
+    `((e >> c) % 2) ==/!= 0|1`, operands in either order, possibly negated; anything else is reported as undecidable (fail closed)."""
+    from facts import walk as _walk, pp as _pp
+    lib = F.lib()
+    ks = [k for k in lib.ithir if k.endswith('BDDCategorizable>::categorize') and '<usize as' in k and lib.ithir[k].get('body')]
+    if not ks:
+        R.violation('rsbdd::set::BDDCategorizable for usize / categorize', 'UNDECIDABLE', 'the implementation of categorize for usize was not found'); return
+    t = lib.ithir[ks[0]]
+    pv = [q.get('pat', {}).get('var') for q in t['params']]
+    if len(pv) != 2 or None in pv:
+        R.violation(ks[0] + ' / bit c of e', 'UNDECIDABLE', 'parameters of categorize are not two plain bindings'); return
+    e_, c_ = pv
+    def strip(x):
+        while x is not None:
+            if x['k'] in ('Borrow', 'Deref', 'Use', 'Scope'): x = x.get('arg') or x.get('source') or x.get('value')
+            elif x['k'] == 'Block' and not x.get('stmts') and x.get('expr'): x = x['expr']
+            else: break
+        return x
+    def is_var(x, v): x = strip(x); return x is not None and x['k'] == 'VarRef' and x['var'] == v
+    def lit(x):
+        x = strip(x)
+        return int(x['value']) if x is not None and x['k'] == 'Literal' and x.get('lit') == 'Int' and not x.get('neg') and str(x.get('value', '')).isdigit() else None
+    def binop(x):
+        x = strip(x)
+        if x is None: return None
+        if x['k'] == 'Binary': return (x['op'], x['lhs'], x['rhs'])
+        if x['k'] == 'Call' and len(x.get('args', [])) == 2:
+            d = (x['callee'].get('trait') or x['callee'].get('def') or '')
+            for tr, op in (('std::ops::Shr', 'Shr'), ('std::ops::Shl', 'Shl'), ('std::ops::BitAnd', 'BitAnd'), ('std::ops::Rem', 'Rem')):
+                if d.startswith(tr): return (op, x['args'][0], x['args'][1])
+        return None
+    def shifted_down(x):          # e >> c
+        b = binop(x); return b is not None and b[0] == 'Shr' and is_var(b[1], e_) and is_var(b[2], c_)
+    def one_at_c(x):              # 1 << c
+        b = binop(x); return b is not None and b[0] == 'Shl' and lit(b[1]) == 1 and is_var(b[2], c_)
+    def bit_value(x):
+        """'01' if x is bit c of e as 0/1, 'mask' if it is e & (1 << c), None otherwise"""
+        b = binop(x)
+        if b is None: return None
+        op, l, r = b
+        if op == 'BitAnd':
+            for a1, a2 in ((l, r), (r, l)):
+                if shifted_down(a1) and lit(a2) == 1: return '01'
+                if is_var(a1, e_) and one_at_c(a2): return 'mask'
+        if op == 'Rem' and shifted_down(l) and lit(r) == 2: return '01'
+        return None
+    def test(x):
+        x = strip(x)
+        if x is None: return False
+        if x['k'] == 'Unary' and x.get('op') == 'Not': return test(x['arg'])
+        b = binop(x)
+        if b is None or b[0] not in ('Eq', 'Ne'): return False
+        for a1, a2 in ((b[1], b[2]), (b[2], b[1])):
+            kind = bit_value(a1); n = lit(a2)
+            if kind == '01' and n in (0, 1): return True
+            if kind == 'mask' and n == 0: return True
+        return False
+    ok = test(t['body'])
+    R.count('categorize-bit-test'); R.obligation(ok, 'categorize reads bit c')
+    if not ok:
+        R.violation(ks[0] + ' / bit c of e', 'UNDECIDABLE', 'cannot show that categorize(e, c) is a function of exactly bit c of e (two elements that differ in a bit must differ in a literal of their minterms): the body is `%s`' % _pp(t['body']).strip()[:200], t['body'].get('loc'))
+
 def check_C19(F, tier, t0):
     R = Report('C19')
     E = make_engine(F)
@@ -770,6 +834,7 @@ def check_C19(F, tier, t0):
     spec_set.mark_inline(E)
     guarded(R, 'S set operations', run_S, R, E, spec_set.SET_FNS, spec_set.S_)
     guarded(R, 'E10', engine_e.rule_E10, F, R)      # the operations work in the set's one environment
+    guarded(R, 'categorize', rule_categorize_bit, F, R)      # ... and the literal chosen for position i is bit i of the element
     def aliased():
         E.alias_params = (0, 1)
         try:
@@ -792,7 +857,7 @@ def check_C19(F, tier, t0):
         'old-other (also with the operand aliased to the receiver), never the operand\'s; insert ors in the minterm whose i-th literal is chosen by categorize(e,i) for i in '
         '0..bits; empty/universe store the constants; contains returns the structural test (content and {e}) == {e}. Effects: a query method never writes the cell of the set '
         'it is asked of (E7, receiver-sensitive through calls); no RefCell guard is alive across a write of a cell that may be the same one (G1: self-aliasing operands). '
-        'Membership agreement with a reference set under every history follows from these signatures and C02/C03. Not decided: injectivity of categorize beyond bit i '
+        'Membership agreement with a reference set under every history follows from these signatures and C02/C03. categorize(e,i) for usize is a test of exactly bit i of e (shape of its body). Not decided: injectivity of categorize beyond bit i '
         'deciding literal i.',
         TRUSTED, [], './check C19')
 
